@@ -1681,8 +1681,28 @@ func r01_9(c *Ctx, part string) {
 				c.bad(name, P.ipos(call), "the BOM is tested for but never removed")
 				return
 			}
+			if calleeName(call) == "strings.TrimPrefix" {
+				// the removal itself, written with TrimPrefix: judged at the HasPrefix / CutPrefix test that guards it
+				guardedElsewhere := false
+				eachInstr(f, func(x ssa.Instruction) {
+					if g2, ok := isStaticCall(x, "strings.HasPrefix", "strings.CutPrefix"); ok && g2 != call {
+						if k2, isK2 := constString(g2.Call.Args[1]); isK2 && k2 == "\xEF\xBB\xBF" {
+							guardedElsewhere = true
+						}
+					}
+				})
+				if guardedElsewhere {
+					bomFns--
+					return
+				}
+			}
 			sl, isSl := strip.Val.(*ssa.Slice)
 			lenOK := false
+			if tp, ok := isStaticCall(strip.Val, "strings.TrimPrefix"); ok && isFld("data")(tp.Call.Args[0]) {
+				if k2, isK2 := constString(tp.Call.Args[1]); isK2 && k2 == "\xEF\xBB\xBF" {
+					lenOK = true // removes exactly the BOM when the data starts with it (which the guard established)
+				}
+			}
 			if isSl && isFld("data")(sl.X) && sl.High == nil {
 				if k, ok := constInt(sl.Low); ok && k == 3 {
 					lenOK = true
